@@ -548,11 +548,17 @@ func (world) RunCase(t *tape.Tape, st *super.Stats) *super.Violation {
 				errText = 1 + t.Draw(3) // a tree whose errors have an empty / blank / newline-terminated text
 				inc("reach:tree_error_with_unusual_text")
 			}
+			errType := 0
+			if t.Rare(4) {
+				errType = 1 + t.Draw(3) // the tree's error is a struct value with a slice field / a slice / wrapped: not a pointer, maybe not comparable
+				inc("reach:tree_error_of_unusual_dynamic_type")
+			}
 			for k := 1; k <= n; k++ {
 				tree.Reset()
 				tree.FailAt = map[int]bool{k: true}
 				tree.ErrText = errText
 				tree.ErrShape = errShape
+				tree.ErrType = errType
 				fo := safeRun(b.m, ck, cur, context.Background())
 				inc("run:single_fault")
 				fired := false
